@@ -59,6 +59,9 @@ class DocRun(object):
             self.labels.add("doc-without-final-newline")
         self.file = parse_deb822_file(text.splitlines(True),
                                       accept_files_with_duplicated_fields=dups)
+        # a second, never modified document parsed from the same text: whatever is done to the
+        # first one, this one must keep dumping the original text (no state shared between documents)
+        self.twin = parse_deb822_file(text.splitlines(True), accept_files_with_duplicated_fields=dups)
         self.rparas = list(self.file)
         if len(self.rparas) != len(self.paras):
             raise Violation("parse-paragraph-count", "parsed %d paragraphs from %s, expected %d" % (
@@ -437,6 +440,9 @@ class DocRun(object):
 
     # -------------------------------------------------------------------------------- end
     def finish(self):
+        if self.twin.dump() != self.text0:
+            raise Violation("edit-leaks-into-another-document", "an unmodified document parsed from "
+                            "the same text now dumps %s, text %s" % (short(self.twin.dump()), short(self.text0)))
         d = self.file.dump()
         f2 = parse_deb822_file(d.splitlines(True), accept_files_with_duplicated_fields=True)
         got = []
